@@ -493,13 +493,20 @@ func c07Histories(c *core.Ctx) {
 		lorawan.VerifResetProprietary()
 		model := regModel{true: {}, false: {}}
 		steps := 4 + r.Intn(14)
+		manyKeys := h%9 == 4
+		if manyKeys {
+			steps = 150 + r.Intn(250) // a registry that fills up: most of the 2 x 128 proprietary CIDs get (re-)registered
+		}
 		var trace []string
 		for s := 0; s < steps; s++ {
-			if r.Chance(1, 2) {
+			if r.Chance(1, 2) || (manyKeys && r.Chance(2, 3)) {
 				up := r.Bool()
 				cid := byte(r.Intn(256))
-				if r.Chance(3, 4) {
+				if r.Chance(3, 4) && !manyKeys {
 					cid = byte(0x80 + r.Intn(6)) // few keys: re-registrations and both directions collide
+				}
+				if manyKeys && len(trace) > 40 {
+					trace = trace[len(trace)-40:]
 				}
 				size := r.Range(-3, 6)
 				var err error
